@@ -343,7 +343,10 @@ def run_variant(sc, binf, d, info):
         junk = b"\x5a" * (d.shape[0] * frame + 770)
         lfname = binf.name.replace("ap", "lf")
         if kind == "NP2.4" and not sc.get("lf_whole"):
-            for sh in wanted_shanks(sc, info):
+            # "partial": only some of the shank folders are there (seed round i: `already_exists` told of the last shank only) - all
+            # but the last one; the run is made WITHOUT overwrite: it declines (nothing to judge), or it converts - then every shank
+            # file it names must be right, the ones that were there before included
+            for sh in (wanted_shanks(sc, info)[:-1] if sc["pre"] == "partial" else wanted_shanks(sc, info)):
                 f = raw / (label + chr(97 + sh) + extra)
                 f.mkdir()
                 (f / binf.name).write_bytes(junk)
@@ -381,8 +384,10 @@ def run_variant(sc, binf, d, info):
     # the run's own verification (the constructor's default) compares ALL columns: not when only some of the shanks are written
     pchk = bool(sc.get("post_check")) and (not sc.get("nshank_pick") or wanted_shanks(sc, info) == wanted_shanks(dict(sc, nshank_pick=None), info))
     status, events, conv, exc, first = n2.convert_opts(str(apf) if sc.get("path_type") == "str" else apf, init, compress=bool(sc.get("compress")),
-                                                       post_check=pchk, overwrite=bool(sc.get("pre")), decline_first=sc.get("pre") == "decline_force", np21=np21,
+                                                       post_check=pchk, overwrite=bool(sc.get("pre")) and sc.get("pre") != "partial", decline_first=sc.get("pre") == "decline_force", np21=np21,
                                                        twice=sc.get("pre") == "twice_force", **bounds(sc, d))
+    if sc.get("pre") == "partial" and status == 0 and not exc:
+        return "skipped", [], conv, "", rc_early            # declined: what a run that finds output of an earlier run does
     if sc.get("pre") == "decline_force" and first != 0 and not exc:
         exc = f"process() returned {first} although every output folder existed"
     if sc.get("pre") == "twice_force" and first != 1 and not exc:
@@ -486,7 +491,7 @@ def scenarios(ctx):
 FEATURES = [("input", "cbin"), ("encoding", "geom"), ("ptype", 2013), ("w_type", "float"), ("w_type", "np32"), ("w_type", "np64"),
             ("w_type", "default"), ("nsamples", True), ("extra", "_x1"), ("nshank_pick", "last"), ("nshank_pick", "ends"),
             ("compress", True), ("post_check", True), ("recon_compress", True), ("recon_obj", "early"), ("recon_obj", "twice"), ("recon_obj", "failed_then"),
-            ("extras_in_shank", True), ("sibling", True), ("pre", "stale_force"), ("pre", "decline_force"), ("label", "probe01"),
+            ("extras_in_shank", True), ("sibling", True), ("pre", "stale_force"), ("pre", "decline_force"), ("pre", "partial"), ("label", "probe01"),
             ("path_type", "str"), ("map", "only"), ("fname", "rec_g0_t0_imec0_ap"), ("fname", "snap_g0_t1.imec1.ap"), ("w", 588), ("w", 600), ("w", 1152)]
 
 
